@@ -167,7 +167,7 @@ theorem removeIndent_eq (lines : List (List Nat)) (ci : Option Nat) :
 
 theorem stripBlank_of_head {first : List Nat} {more : List (List Nat)} (h : Spec.onlyWhiteSpace first = false) :
     Spec.stripBlankLines (first :: more) = ((first :: more).reverse.dropWhile Spec.onlyWhiteSpace).reverse := by
-  simp [Spec.stripBlankLines, List.dropWhile_cons, h]
+  simp [Spec.stripBlankLines, h]
 
 theorem stripLoop_eq : ∀ (fuel : Nat) (lines : List (List Nat)), lines.length ≤ fuel →
     stripLoop fuel lines = Spec.stripBlankLines lines
@@ -183,13 +183,13 @@ theorem stripLoop_eq : ∀ (fuel : Nat) (lines : List (List Nat)), lines.length 
     | true =>
       simp only [if_true]
       rw [stripLoop_eq fuel more (by simpa using h)]
-      simp [Spec.stripBlankLines, List.dropWhile_cons, hb]
+      simp [Spec.stripBlankLines, hb]
     | false =>
       simp only [Bool.false_eq_true, if_false]
       rw [stripBlank_of_head hb]
       cases more with
       | nil =>
-        simp [List.dropWhile_cons, hb]
+        simp [hb]
       | cons second more' =>
         -- the list ends in `last`
         have hne : (first :: second :: more') ≠ [] := by simp
@@ -208,7 +208,7 @@ theorem stripLoop_eq : ∀ (fuel : Nat) (lines : List (List Nat)), lines.length 
             simp only [List.length_dropLast, List.length_cons] at h ⊢; omega
           rw [stripLoop_eq fuel _ hlen, hinit, stripBlank_of_head hb, ← hinit]
           conv => rhs; rw [← hdl]
-          simp [List.dropWhile_cons, hbl]
+          simp [hbl]
         | false =>
           simp only [Bool.false_eq_true, if_false]
           conv => rhs; rw [← hdl]
